@@ -79,7 +79,7 @@ def run(ctx):
     posts = ["", "trailing text\n", "[p] <- [q]\n"]
     for k in range(n_rand):
         lines = random_diagram(rng, pool, rng.randint(2, 6), rng.random() < 0.4)
-        tags = rng.random() > 0.06
+        tags = rng.random() > 0.1 or rng.choice([False, "start_only", "end_only", "reversed"])
         items.append({"op": "parse", "lines": lines, "tags": tags, "pre": rng.choice(pres), "post": rng.choice(posts)})
     for i in range(0, len(items), 200):
         specs.append({"driver": "diagram", "world": None, "items": items[i:i + 200]})
@@ -100,7 +100,8 @@ def run(ctx):
     cov = {"states": mc.distinct + tr.states, "transitions": mc.generated + tr.transitions, "model_states": mc.distinct,
            "traces_validated_against_impl": len(episodes), "trace_events": tr.events,
            "evaluations": len(evs), "distinct_nontrivial": distinct,
-           "diagrams_without_tags": sum(1 for e in evs if not e["tags"]),
+           "diagrams_without_tags": sum(1 for e in evs if e["tagform"] != "both"),
+           "tag_forms": {tf: sum(1 for e in evs if e["tagform"] == tf) for tf in sorted({e["tagform"] for e in evs})},
            "rule": "one case = one abstract diagram rendered to text and parsed by the real PumlParser; non-trivial = "
                    "has at least one arrow; distinct by abstract content",
            "exhaustive": False, "exhaustive_part": "every documented diagram of at most 2 lines over the model's line alphabet "
